@@ -9,6 +9,6 @@ git -C /repo worktree add --detach -q $W HEAD || exit 2
 git -C $W apply "$P" || { echo "PATCH DOES NOT APPLY"; git -C /repo worktree remove --force $W; exit 2; }
 rc=0
 for c in "$@"; do
-  TETL_REPO=$W MC_NO_CONFIRM=1 python3 /verif/check.py $c --tier ${TIER:-quick} 2>/dev/null | grep -E "^VIOLATION|^   subject|^   case|^C[0-9]+ (quick|thorough)|BUILD-FAILED" | head -${LINES_MAX:-14}
+  TETL_REPO=$W MC_NO_CONFIRM=1 timeout ${TRY_TIMEOUT:-1500} python3 /verif/check.py $c --tier ${TIER:-quick} ${FLAVOURS:+--flavours $FLAVOURS} 2>/dev/null | grep -E "^VIOLATION|^   subject|^   case|^C[0-9]+ (quick|thorough)|BUILD-FAILED" | head -${LINES_MAX:-14}
 done
 git -C /repo worktree remove --force $W
